@@ -120,9 +120,26 @@ func finalShrinkLit(c *Ctx) (*FuncInfo, *ast.FuncLit) {
 			return true
 		}
 		has := false
+		helpers := c.calledOnlyFrom("aofshrink")
 		inspectNoLit(lit.Body, func(x ast.Node) bool {
-			if call, ok := x.(*ast.CallExpr); ok && isFunc(callee(fn.Info(), call), "os", "Rename") {
+			call, ok := x.(*ast.CallExpr)
+			if !ok {
+				return true
+			}
+			f := callee(fn.Info(), call)
+			if isFunc(f, "os", "Rename") {
 				has = true
+			}
+			// a helper that only aofshrink calls and that performs the rename
+			if f != nil && helpers[f] && f != fn.Obj {
+				if hi := c.FuncOf(f); hi != nil {
+					ast.Inspect(hi.Decl.Body, func(y ast.Node) bool {
+						if cc, ok := y.(*ast.CallExpr); ok && isFunc(callee(hi.Info(), cc), "os", "Rename") {
+							has = true
+						}
+						return true
+					})
+				}
 			}
 			return true
 		})
@@ -145,16 +162,26 @@ func ruleSwapOrder(c *Ctx) {
 	aofsz := c.Field("internal/server", "Server", "aofsz")
 	shrinklog := c.Field("internal/server", "Server", "shrinklog")
 	afn := c.Field("internal/server", "Options", "AppendFileName")
-	fg := newFlowGraph(info, lit.Body)
+	helpers := c.calledOnlyFrom("aofshrink")
+	fg := newXFlow(c, info, lit.Body, func(f *types.Func) bool { return helpers[f] && f != fn.Obj })
+	// the function body that contains a node (for resolving single-definition locals such as livePath)
+	bodyOf := func(n ast.Node) ast.Node {
+		for f := range helpers {
+			if fi := c.FuncOf(f); fi != nil && fi.Decl.Body.Pos() <= n.Pos() && n.End() <= fi.Decl.Body.End() {
+				return fi.Decl.Body
+			}
+		}
+		return fn.Decl.Body
+	}
 	isFileMethod := func(f *types.Func, name string) bool { return isMethod(f, "os", "File", name) }
 	onAOF := func(call *ast.CallExpr) bool {
 		se, ok := ast.Unparen(call.Fun).(*ast.SelectorExpr)
 		return ok && selField(info, se.X) == aof
 	}
-	find1 := func(desc string, pred func(n ast.Node) bool) Loc {
+	find1 := func(desc string, pred func(n ast.Node) bool) XLoc {
 		ls := fg.Find(pred)
 		if len(ls) == 0 {
-			return Loc{}
+			return XLoc{}
 		}
 		return ls[0]
 	}
@@ -175,18 +202,19 @@ func ruleSwapOrder(c *Ctx) {
 		return hit
 	}
 	isShrinkPath := func(e ast.Expr) bool {
+		e = resolveLocal(info, bodyOf(e), e)
 		be, ok := ast.Unparen(e).(*ast.BinaryExpr)
 		if !ok || be.Op != token.ADD {
 			return false
 		}
 		s, ok := constString(info, be.Y)
-		return ok && s == "-shrink" && mentions(be.X, afn)
+		return ok && s == "-shrink" && mentions(resolveLocal(info, bodyOf(e), be.X), afn)
 	}
-	isLivePath := func(e ast.Expr) bool { return selField(info, e) == afn }
+	isLivePath := func(e ast.Expr) bool { return selField(info, resolveLocal(info, bodyOf(e), e)) == afn }
 
 	type step struct {
 		name string
-		loc  Loc
+		loc  XLoc
 	}
 	steps := []step{
 		{"Lock", find1("lock", callPred(func(f *types.Func, call *ast.CallExpr) bool { return c.serverMuOp(info, call) == lkLock }))},
@@ -213,7 +241,7 @@ func ruleSwapOrder(c *Ctx) {
 	// close-new: the close of f that follows the final sync; several Close calls on f may exist (conn loop): take the one after sync
 	for i := range steps {
 		if steps[i].name == "close-new" {
-			var syncLoc Loc
+			var syncLoc XLoc
 			for _, s := range steps {
 				if s.name == "sync-new-file" {
 					syncLoc = s.loc
@@ -234,7 +262,7 @@ func ruleSwapOrder(c *Ctx) {
 			continue
 		}
 		if prev >= 0 {
-			c.check(fg.Dominates(steps[prev].loc, s.loc), "order/"+steps[prev].name+"→"+s.name, s.loc.Node.Pos(),
+			c.check(fg.Dominates(steps[prev].loc, s.loc), "order/"+steps[prev].name+"→"+s.name, s.loc.Pos(),
 				steps[prev].name+" dominates "+s.name, s.name+" can execute without "+steps[prev].name+" having executed first")
 		}
 		prev = i
@@ -669,8 +697,33 @@ func ruleEmitCoversState(c *Ctx) {
 		}
 		loc := fg.LocOf(call)
 		var facts []string
+		// conditions that are about the thing being emitted mention it: the parameters of the enclosing
+		// callbacks (the object, the field) or a local of hook/object/field type; a condition on other
+		// locals only (the batch counter against the batch size) is not a filter on the emitted state
+		subject := func(e ast.Expr) bool {
+			hit := false
+			ast.Inspect(e, func(n ast.Node) bool {
+				id, ok := n.(*ast.Ident)
+				if !ok {
+					return true
+				}
+				v, ok := info.ObjectOf(id).(*types.Var)
+				if !ok {
+					return true
+				}
+				t := v.Type().String()
+				if strings.HasSuffix(t, "server.Hook") || strings.HasSuffix(t, "object.Object") || strings.HasSuffix(t, "field.Field") || strings.HasSuffix(t, "field.Value") {
+					hit = true
+				}
+				return true
+			})
+			return hit
+		}
 		if loc.Valid() {
 			for _, f := range fg.DominatingFacts(loc) {
+				if !subject(f.E) && f.Tag == nil {
+					continue
+				}
 				s := exprStr(f.E)
 				if f.Tag != nil {
 					s = exprStr(f.Tag) + "==" + s
@@ -700,10 +753,6 @@ func ruleEmitCoversState(c *Ctx) {
 			for _, f := range facts {
 				if _, ok := need[f]; ok {
 					need[f] = true
-					continue
-				}
-				// the batch-limit test of the object callback is not a filter on the object
-				if strings.HasPrefix(f, "!(count == ") {
 					continue
 				}
 				// existence of the thing being emitted (the hook was deleted meanwhile) is not a filter on its state
